@@ -244,11 +244,16 @@ macro_rules! combine_impls {
                                                         }
                                                     }
                                                     Message::Data(data) => {
-                                                        let n_data = if vals
-                                                            .load()
-                                                            .$idx
-                                                            .is_none()
-                                                        {
+                                                        // store the value before counting it, so that
+                                                        // whoever sees `n_data` reach 0 finds every slot
+                                                        // filled even when the members deliver from
+                                                        // different threads
+                                                        let prev = vals.rcu(move |vals| {
+                                                            let mut vals = (**vals).clone();
+                                                            vals.$idx = Some(data.clone());
+                                                            vals
+                                                        });
+                                                        let n_data = if prev.$idx.is_none() {
                                                             n_data.fetch_sub(
                                                                 1,
                                                                 AtomicOrdering::AcqRel,
@@ -258,11 +263,6 @@ macro_rules! combine_impls {
                                                                 AtomicOrdering::Acquire,
                                                             )
                                                         };
-                                                        vals.rcu(move |vals| {
-                                                            let mut vals = (**vals).clone();
-                                                            vals.$idx = Some(data.clone());
-                                                            vals
-                                                        });
                                                         if n_data == 0 {
                                                             call!(
                                                                 sink,
